@@ -61,6 +61,9 @@ var (
 	Gate func(kind, path string)
 )
 
+// Recording reports whether the operation log is on.
+func Recording() bool { return recording.Load() }
+
 // Record switches the operation log on or off.
 func Record(on bool) { recording.Store(on) }
 
